@@ -123,7 +123,121 @@ func (g *gen) tl() string {
 func (g *gen) pick(xs ...string) string { return xs[g.r.Intn(len(xs))] }
 func (g *gen) hit(f string)             { g.feat[f]++ }
 
-func (g *gen) fresh(p string) string { g.nvar++; return fmt.Sprintf("%s%d", p, g.nvar) }
+func (g *gen) fresh(p string) string {
+	g.nvar++
+	if g.r.Chance(12) { // non-ASCII identifiers
+		return fmt.Sprintf("%s%s%d", p, g.pick("é", "π", "变量", "ñ_", "Ж"), g.nvar)
+	}
+	return fmt.Sprintf("%s%d", p, g.nvar)
+}
+
+// ty: a type expression of every form, nesting depth <= d.  nilable: only types to which nil
+// converts (pointer, slice, map, chan, func, interface).
+func (g *gen) ty(d int, nilable bool) string {
+	if d <= 0 {
+		if nilable {
+			return g.pick("*int", "[]int", "map[string]int", "chan int", "func()", "interface{}", "*T", "[]K", "Shape", "error", "<-chan int", "chan<- int")
+		}
+		return g.pick("int", "string", "T", "K", "Color", "float64", "bool", "byte", "rune", "Rect", "[2]int", "struct{}", "uint8")
+	}
+	e := func() string { return g.ty(d-1, g.r.Chance(40)) }
+	switch g.r.Intn(22) {
+	case 0:
+		return "*" + e()
+	case 1:
+		return "[]" + e()
+	case 2:
+		return "map[" + g.pick("string", "int", "K", "[2]int", "Color", "*T", "interface{}", "chan int") + "]" + e()
+	case 3:
+		return "chan " + e()
+	case 4:
+		return "chan<- " + e()
+	case 5:
+		return "<-chan " + e()
+	case 6:
+		g.hit("nested_arrow_chan")
+		return "<-chan <-chan " + e()
+	case 7:
+		g.hit("nested_arrow_chan")
+		return g.pick("<-chan <-chan <-chan ", "<-chan chan<- <-chan ", "chan<- <-chan ", "<-chan (<-chan ", "chan (<-chan ") + e() + g.pick("", "")
+	case 8:
+		return "func(" + g.pick("", e(), e()+", "+e(), "..."+e(), "x "+e(), "x, y "+e()) + ")" + g.pick("", " "+e(), " ("+e()+", error)", " (r "+e()+")")
+	case 9:
+		return "interface{ M(" + e() + ") " + e() + " }"
+	case 10:
+		return "interface{}"
+	case 11:
+		if !nilable {
+			return "[" + g.pick("2", "0", "1<<2", "len(\"ab\")") + "]" + e()
+		}
+	case 12:
+		if !nilable {
+			return "struct{ f " + e() + "; g, h " + e() + " }"
+		}
+	case 13:
+		if !nilable {
+			return g.pick("Pair[string, "+e()+"]", "List["+e()+"]", "Pair[K, List["+e()+"]]")
+		}
+	case 14:
+		return "*" + g.pick("List["+e()+"]", "Pair[int, "+e()+"]", "struct{ f "+e()+" }", "[2]"+e())
+	case 15:
+		return "(" + g.ty(d-1, nilable) + ")"
+	case 16:
+		return "[]" + "(" + e() + ")"
+	case 17:
+		return "chan (" + e() + ")"
+	}
+	return g.ty(d-1, nilable)
+}
+
+// typePositions: one statement that uses generated types in a position where the Go grammar
+// allows a type inside an expression.
+func (g *gen) typePositions() string {
+	g.hit("type_in_expr")
+	d := 1 + g.r.Intn(3)
+	t, n := g.ty(d, false), g.ty(d, true)
+	v := g.fresh("v")
+	fix := func(s string) string { // close the parenthesis opened by the "(<-chan" alternatives
+		if strings.Count(s, "(") > strings.Count(s, ")") {
+			s += strings.Repeat(")", strings.Count(s, "(")-strings.Count(s, ")"))
+		}
+		return s
+	}
+	t, n = fix(t), fix(n)
+	switch g.r.Intn(16) {
+	case 0:
+		return "_ = (" + n + ")(nil)"
+	case 1:
+		return "_ = ((" + n + "))(nil)"
+	case 2:
+		return "_ = new(" + g.pick(t, n) + ")"
+	case 3:
+		return "_ = make(chan " + g.pick(t, n) + g.pick(")", ", 1)")
+	case 4:
+		return "_ = make(" + g.pick("<-chan ", "chan<- ", "<-chan <-chan ", "<-chan chan<- ", "chan<- <-chan ") + g.pick(t, n) + g.pick(")", ", a)")
+	case 5:
+		return "_ = make([]" + g.pick(t, n) + ", 1, 2)\n_ = make(map[string]" + g.pick(t, n) + ")"
+	case 6:
+		return "_ = []" + g.pick(t, n) + "{}\n_ = map[K]" + g.pick(t, n) + "{}\n_ = [2]" + g.pick(t, n) + "{}"
+	case 7:
+		return "_ = struct{ f " + n + " }{}\n_ = &struct{ f, g " + t + " }{}\n_ = [...]" + n + "{nil, 2: nil}"
+	case 8:
+		return v + ", ok" + v + " := any.(" + g.pick(t, n) + ")\n_, _ = " + v + ", ok" + v
+	case 9:
+		return "switch " + v + " := any.(type) {\ncase " + g.pick(t, n) + ":\n_ = " + v + "\ndefault:\n}"
+	case 10:
+		return "switch any.(type) {\ncase nil, " + n + ":\n}"
+	case 11:
+		return "_ = Map[" + g.pick(t, n) + ", " + g.pick(t, n) + "]\n_ = List[" + n + "]{}\n_ = Pair[string, " + t + "]{}"
+	case 12:
+		return "_ = func(x " + t + ", ys ..." + n + ") (r " + g.pick(t, n) + ") {\n_, _ = x, ys\nreturn\n}"
+	case 13:
+		return "var " + v + " " + g.pick(t, n) + "\n_ = " + v
+	case 14:
+		return "_ = (*" + g.pick(t, "[]"+t) + ")(nil)\n_ = []" + n + "(nil)\n_ = map[string]" + t + "(nil)\n_ = interface{ M() " + t + " }(nil)"
+	}
+	return "_ = (func(" + n + ") " + t + ")(nil)\n_ = (chan<- " + n + ")(nil)\n_ = (<-chan <-chan " + t + ")(nil)\n_ = new(<-chan <-chan <-chan " + n + ")"
+}
 
 // ---- expressions -----------------------------------------------------------
 
@@ -279,9 +393,12 @@ func (g *gen) stmt(loop string) string {
 	if g.depth > 3 {
 		return g.simple(d)
 	}
-	k := g.r.Intn(41)
+	k := g.r.Intn(44)
 	if k == 40 {
 		k = 39
+	}
+	if k > 40 {
+		return g.typePositions()
 	}
 	if k < 18 {
 		return g.simple(d)
